@@ -6,7 +6,11 @@ import ast, os, sys, json, tempfile, shutil, importlib.util, itertools, types, t
 RULE = ('signatures with 0-3 parameters (annotated from a pool of 27 annotations: the 19 of the property + nested/PEP 604/builtin '
         'extras, some parameters unannotated) and return annotation (pool / None / absent) x the consistent Google-style '
         'docstring rendered from the signature in a random equal spelling (Optional/Union/| permutations, Literal order, section '
-        'title synonyms, documentation order) x every single edit (drop / add / rename / duplicate / reorder a parameter, change '
+        'title synonyms, documentation order; variadic parameters *args / **kwargs, whose NAMES are args / kwargs; def and async def) x every single '
+        'edit (drop / add / rename / duplicate / reorder a parameter; rename to a NEAR name: 1-3 leading `*`, trailing `*`, `*x*`, leading / trailing / '
+        'inner `_`, `__x__`, upper case, capitalised, a blank inside, proper prefix / suffix, last letter doubled, backticks, `self.x`, trailing hyphen — '
+        'enumerated for 7 signatures with realistic names incl. variadic ones x every parameter x def / async def x every trigger path incl. methods of a '
+        'pedantic_class_require_docstring class, sampled inside the seeded signatures; change '
         'the documented type to something that merely NAMES the annotation — the bare origin of a parametrised type at the top and at every inner '
         'subscript in the typing and the builtin spelling, the outer type with one argument dropped, every string the annotation object or its '
         'origin reports as __name__ / __qualname__ / _name — for every pool annotation x spelling x {parameter, Returns, next to a correct '
@@ -22,6 +26,10 @@ ASSUMPTIONS = [
     'docstring_parser is installed (without it `decorated_func.docstring` is None and nothing is ever checked, also not with require_docstring)',
     'pedantic is enabled unless the case says otherwise (ENABLE_PEDANTIC unset / "0" set by the harness around the import)',
     'annotations are evaluated eagerly (no `from __future__ import annotations`); parameter names are distinct (Python syntax)',
+    'the NAME of a parameter is its key in __annotations__ / inspect: `args` for `*args: T`, `kwargs` for `**kwargs: T`.  By the letter of the property '
+    '("documents exactly the annotated parameters") `args (T)` documents the variadic parameter and `*args (T)` — the spelling the Google style guide uses — '
+    'names no parameter: specification, model and library agree on this (the library rejects `*args (T)`); whether the starred spelling should be '
+    'admitted for real variadic parameters is a design question for the integrator, not decided here',
     'documented types use only identifiers the model knows (builtin classes, the typing names of the fragment, the module\'s '
     'own names My/Other/T, undefined names); the generator checks this for every case',
 ]
@@ -260,6 +268,44 @@ def near_misses(ann, ty):
     return out
 
 
+def base(nm):
+    """the NAME of a parameter written `*args` / `**kwargs` in the signature is `args` / `kwargs` (inspect, `__annotations__`)"""
+    return nm.lstrip('*')
+
+
+_ROUNDTRIP = {}
+
+
+def roundtrips(name):
+    """docstring_parser hands the documented name back as written (it strips blanks around a name, so a variant that differs only
+    there is the same name and is not generated)"""
+    if name not in _ROUNDTRIP:
+        import docstring_parser
+        d = docstring_parser.parse(render_doc({'params': [(name, 'int')], 'returns': None}))
+        _ROUNDTRIP[name] = [(q.arg_name, q.type_name) for q in d.params] == [(name, 'int')]
+    return _ROUNDTRIP[name]
+
+
+def near_names(nm):
+    """(kind, name) — names that are NOT the parameter's name but close to it: leading / trailing / surrounding `*` and `_`, another
+    case, a blank inside, a proper prefix / suffix, the name extended, decorated spellings (`self.x`, backticks).  For a parameter
+    written `*args` in the signature the name is `args`; `*args`, `**args` … are near names like for every other parameter."""
+    b = base(nm)
+    out = [('star1-prefix', '*' + b), ('star2-prefix', '**' + b), ('star3-prefix', '***' + b), ('star-suffix', b + '*'),
+           ('star-around', '*' + b + '*'), ('underscore-prefix', '_' + b), ('underscore-suffix', b + '_'),
+           ('dunder', '__' + b + '__'), ('upper', b.upper()), ('capitalized', b[:1].upper() + b[1:]), ('lower', b.lower()),
+           ('extended', b + b[-1:]), ('backticks', '`' + b + '`'), ('dotted', 'self.' + b), ('hyphen-suffix', b + '-')]
+    if len(b) >= 2:
+        k = len(b) // 2
+        out += [('inner-blank', b[:k] + ' ' + b[k:]), ('prefix', b[:-1]), ('suffix', b[1:]), ('inner-underscore', b[:k] + '_' + b[k:])]
+    seen, res = {b}, []
+    for kind, n in out:
+        if n not in seen and roundtrips(n):
+            seen.add(n)
+            res.append((kind, n))
+    return res
+
+
 def render_doc(idoc, title_args='Args', title_ret='Returns'):
     """the docstring text (without quotes) for an intended docstring"""
     if isinstance(idoc, str):
@@ -289,7 +335,7 @@ def render_fn(name, sig, doctext, indent, deco_line, selfarg):
     lines = []
     if deco_line:
         lines.append(indent + deco_line)
-    lines.append(f"{indent}def {name}({', '.join(ps)}){ret}:")
+    lines.append(f"{indent}{'async ' if sig.get('async') else ''}def {name}({', '.join(ps)}){ret}:")
     if doctext is not None:
         body = doctext.replace('\n    ', '\n' + indent + '    ') if indent else doctext
         lines.append(f'{indent}    """{body}"""')
@@ -303,6 +349,7 @@ def abstract_unit(sig, idoc, doctext, deco):
     anns = []
     ann_objs = {}
     for nm, ann in sig['params']:
+        nm = base(nm)
         if ann is not None:
             o = eval(ann, dict(NSMOD)); ann_objs[nm] = o
             anns.append([nm, to_val(o)])
@@ -358,7 +405,7 @@ def mk_case(deco, units, edit, enabled=True, titles=('Args', 'Returns'), in_doma
     else:
         src = HEAD_SRC + srcs[0]
     # func.__doc__ exactly as the compiler stores it (3.12: the raw constant)
-    fns = [n for n in ast.walk(ast.parse(src)) if isinstance(n, ast.FunctionDef)]
+    fns = [n for n in ast.walk(ast.parse(src)) if isinstance(n, (ast.FunctionDef, ast.AsyncFunctionDef))]
     assert len(fns) == len(units)
     aus = [abstract_unit(sig, idoc, ast.get_docstring(fn, clean=False), deco) for (sig, idoc), fn in zip(units, fns)]
     return {'m': 'docstring',
@@ -372,7 +419,7 @@ def consistent_doc(sig, rng, canonical=False):
         if ann is None:
             continue
         alts = dict(POOL)[ann]
-        ps.append((nm, alts[0] if canonical else rng.choice(alts)))
+        ps.append((base(nm), alts[0] if canonical else rng.choice(alts)))
     if sig['ret'] in (None, 'None'):
         r = None
     else:
@@ -381,10 +428,12 @@ def consistent_doc(sig, rng, canonical=False):
     return {'params': ps, 'returns': r}
 
 
-def edits_of(sig, cdoc, rng, per_node, near=True):
-    """(label, intended docstring) for every single edit of the consistent docstring `cdoc`"""
+def edits_of(sig, cdoc, rng, per_node, near=True, near_name_count=None):
+    """(label, intended docstring) for every single edit of the consistent docstring `cdoc`
+       near_name_count: how many of the near-name renames per parameter (None: all)"""
     out = []
     ps, r = cdoc['params'], cdoc['returns']
+    ann_of = {base(n): a for n, a in sig['params']}
 
     def with_params(new): return {'params': new, 'returns': r}
 
@@ -393,6 +442,11 @@ def edits_of(sig, cdoc, rng, per_node, near=True):
         pre, post = ps[:i], ps[i + 1:]
         out.append(('drop-param', with_params(pre + post)))
         out.append(('rename-param', with_params(pre + [(nm + 'x', ty)] + post)))
+        nn = [x for x in near_names(nm) if x[1] not in ann_of]
+        if near_name_count is not None and len(nn) > near_name_count:
+            nn = rng.sample(nn, near_name_count)
+        for kind, new in nn:
+            out.append(('rename-near:' + kind, with_params(pre + [(new, ty)] + post)))
         out.append(('dup-param-adjacent', with_params(pre + [(nm, ty), (nm, ty)] + post)))
         if post:      # the next parameter's entry replaced by a copy of this one: the count stays right
             out.append(('dup-param-replacing-next', with_params(pre + [(nm, ty), (nm, ty)] + post[1:])))
@@ -402,11 +456,11 @@ def edits_of(sig, cdoc, rng, per_node, near=True):
         out.append(('ill-typed-type', with_params(pre + [(nm, rng.choice(ILL_TYPED))] + post)))
         for lab, new in node_edits(ty, rng, per_node):
             out.append(('change-type@' + lab.split(':')[1], with_params(pre + [(nm, new)] + post)))
-        for lab, new in (near_misses(dict(sig['params'])[nm], ty) if near else []):
+        for lab, new in (near_misses(ann_of[nm], ty) if near else []):
             out.append((lab, with_params(pre + [(nm, new)] + post)))
     out.append(('add-param', with_params(ps + [('zz', 'int')])))
     out.append(('add-param-front', with_params([('zz', rng.choice(['int', 'My', 'Foo']))] + ps)))
-    unann = [nm for nm, ann in sig['params'] if ann is None]
+    unann = [base(nm) for nm, ann in sig['params'] if ann is None]
     if unann:
         out.append(('document-unannotated', with_params(ps + [(unann[0], 'int')])))
     if len(ps) >= 2:
@@ -437,7 +491,15 @@ def gen_sig(rng, pool):
     for i in range(n):
         params.append((f'p{i}', None if rng.random() < 0.08 else rng.choice(pool)[0]))
     ret = rng.choice(pool + RET_EXTRA + RET_EXTRA)[0]
-    return {'params': params, 'ret': ret}
+    sig = {'params': params, 'ret': ret}
+    # variadic parameters (their NAME is `args` / `kwargs`, the stars belong to the signature syntax) and coroutine functions
+    if rng.random() < 0.15:
+        params.append((rng.choice(['*args', '*rest']), None if rng.random() < 0.08 else rng.choice(pool)[0]))
+    if rng.random() < 0.15:
+        params.append((rng.choice(['**kwargs', '**options']), None if rng.random() < 0.08 else rng.choice(pool)[0]))
+    if rng.random() < 0.2:
+        sig['async'] = True
+    return sig
 
 
 def grid_cases():
@@ -462,6 +524,44 @@ def grid_cases():
     return out
 
 
+# signatures with realistic names for the near-name family: ordinary parameters, variadic parameters, both
+NEAR_SIGS = [
+    {'params': [('values', 'List[int]'), ('factor', 'float')], 'ret': 'List[int]'},
+    {'params': [('template', 'str'), ('options', 'Dict[str, int]')], 'ret': 'str'},
+    {'params': [('p0', 'int'), ('*args', 'int'), ('**kwargs', 'str')], 'ret': 'None'},
+    {'params': [('*args', 'My')], 'ret': 'bool'},
+    {'params': [('**kwargs', 'Optional[int]')], 'ret': None},
+    {'params': [('recipients', 'List[My]'), ('body', 'str')], 'ret': 'int'},
+    {'params': [('x', 'int')], 'ret': 'None'},
+]
+
+
+def near_name_cases():
+    """ONE documented parameter renamed to a name near the real one (everything else consistent: count of entries, types, Returns) — for
+    functions, coroutine functions and methods of a pedantic_class_require_docstring class, under every trigger path; plus the consistent
+    docstring itself.  A variadic parameter `*args: T` is documented consistently as `args (T)` (its name); `*args (T)` names no parameter."""
+    out = []
+    other_sig = {'params': [('count', 'int')], 'ret': 'int'}
+    other = (other_sig, {'params': [('count', 'int')], 'returns': ('typed', 'int')})
+    for sig0 in NEAR_SIGS:
+        for is_async in (False, True):
+            sig = dict(sig0, **({'async': True} if is_async else {}))
+            cdoc = {'params': [(base(n), dict(POOL)[a][0]) for n, a in sig['params']],
+                    'returns': None if sig['ret'] in (None, 'None') else ('typed', dict(POOL)[sig['ret']][0])}
+            names = {base(n) for n, _ in sig['params']}
+            variants = [('consistent:near-name-family', cdoc)]
+            for i, (nm, ty) in enumerate(cdoc['params']):
+                for kind, new in near_names(nm):
+                    if new not in names:
+                        variants.append(('rename-near:' + kind, {'params': cdoc['params'][:i] + [(new, ty)] + cdoc['params'][i + 1:], 'returns': cdoc['returns']}))
+            for k, (label, idoc) in enumerate(variants):
+                for deco in ('pedantic', 'require', 'require_kw'):
+                    out.append(mk_case(deco, [(sig, idoc)], label))
+                units = [[(sig, idoc)], [(sig, idoc), other], [other, (sig, idoc)]][k % 3]
+                out.append(mk_case('class', units, label))
+    return out
+
+
 def cases(rng, tier):
     out = grid_cases()
     nsig = 110 if tier == 'quick' else 1500
@@ -480,7 +580,8 @@ def cases(rng, tier):
         titles = (rng.choice(['Args', 'Args', 'Arguments', 'Parameters']), 'Returns')
         # the near misses that merely name the annotation are enumerated below for every pool annotation; inside the seeded
         # signatures (several parameters, mixed contexts) the quick tier adds them to every third one
-        variants = [('consistent', cdoc)] + edits_of(sig, cdoc, rng, per_node, near=(tier != 'quick' or k % 3 == 0))
+        variants = [('consistent', cdoc)] + edits_of(sig, cdoc, rng, per_node, near=(tier != 'quick' or k % 3 == 0),
+                                                      near_name_count=(3 if tier == 'quick' else None))
         if deco != 'pedantic':
             variants += [('missing-docstring', None), ('empty-docstring', ''), ('summary-only', ' Summary. ')]
         for label, idoc in variants:
@@ -495,6 +596,7 @@ def cases(rng, tier):
                 out.append(mk_case(deco, [(sig, idoc)], label, titles=titles))
         if k % 10 == 0:
             out.append(mk_case(deco, [(sig, cdoc)], 'consistent', enabled=False))
+    out += near_name_cases()
     # (after the seeded part: a failure that depends on an earlier case is bisected over everything that ran before it)
     # every pool annotation in every equal spelling x every near miss that merely names it, as a parameter, as the Returns
     # entry, next to a correctly documented neighbour, and under every trigger path
@@ -519,7 +621,7 @@ def search(rng, tier, near):
         cdoc = consistent_doc(sig, rng)
         for label, idoc in [('consistent', cdoc)] + edits_of(sig, cdoc, rng, 1):
             out.append(mk_case(deco, [(sig, idoc)], label))
-    return out
+    return out + near_name_cases()
 
 
 # ------------------------------------------------------------------------------------------------ implementation side
@@ -576,7 +678,8 @@ INCONSISTENT = {'drop-param', 'rename-param', 'dup-param-adjacent', 'dup-param-r
 def judge(case, impl, model):
     m = norm(model['model'])
     label = case['x']['edit'].split('@')[0]
-    if (label in INCONSISTENT and model['spec']['consistent']) or (label.startswith('consistent') and not model['spec']['consistent']):
+    if ((label in INCONSISTENT or label.startswith('rename-near:')) and model['spec']['consistent']) \
+            or (label.startswith('consistent') and not model['spec']['consistent']):
         raise RuntimeError('specification pipeline disagrees with the construction of the case: ' + json.dumps(case['x']))
     got = impl['out']
     why = []
